@@ -211,6 +211,29 @@ fn check_e2e(c: &E2eCase) -> Verdict {
         Out::Ok(v) if v as u128 == remaining => {}
         o => return fail(format!("e2e-lifetime total{}", if total >= 64 { ">=64" } else { "<=63" }), format!("SigningKey::get_lifetime = {:?}, expected min(leaves - counter, u64::MAX) = {} for {} counter {}", o, remaining, levels_str(&c.levels), c.counter)),
     }
+    // ... and of ONE long-lived key object between its signatures (with and without aux data)
+    if let Some(mut obj) = libapi::key_object(c.hash, &blob) {
+        let mut aux = libapi::AuxBuf::new(vec![0u8; 2000]);
+        let mut left = remaining;
+        for k in 0..3u32 {
+            match obj.lifetime() {
+                Out::Ok(v) if v as u128 == left => {}
+                Out::Err if left == 0 => break,
+                o => return fail("e2e-lifetime history", format!("get_lifetime on one SigningKey object after {} signatures from counter {} of {} = {:?}, expected {}", k, c.counter, levels_str(&c.levels), o, left)),
+            }
+            if left == 0 {
+                break;
+            }
+            let r = obj.sign_obj(b"c13 object", if k % 2 == 0 { Some(&mut aux) } else { None });
+            if !r.is_ok() {
+                return fail("e2e-object-sign", format!("signature {} through one SigningKey object from counter {} of {}: {} {:?}", k, c.counter, levels_str(&c.levels), r.kind(), r.panic_msg()));
+            }
+                        // the counter field has 64 bits: a key with more than 2^64 leaves ends at counter u64::MAX
+            // (same saturation rule as above for the states in between)
+            let next = c.counter as u128 + k as u128 + 1;
+            left = if next > u64::MAX as u128 { 0 } else { hss::total_leaves(&c.levels).saturating_sub(next).min(u64::MAX as u128) };
+        }
+    }
     pass(format!("{}|total{}", gen::shape_class(&c.levels), if total >= 64 { ">=64" } else { "<=63" }), true)
 }
 
